@@ -497,4 +497,4 @@ def run(ctx):
         core.run_sharded(ctx, __name__, 'shard', 1, (1200, 800, 400))
     else:
         run_table(ctx, triple_trees(same_level_only=False), 'triples')
-        core.run_sharded(ctx, __name__, 'shard', getattr(ctx, 'shards_override', None) or 16, (5000, 4000, 1500))
+        core.run_sharded(ctx, __name__, 'shard', getattr(ctx, 'shards_override', None) or 16, (12000, 8000, 4000))
